@@ -74,7 +74,8 @@ fn main() {
         "c08" => dispatch(&c08::C08, &args),
         "c07" => dispatch(&c07::C07, &args),
         "c01" => dispatch(&c01::C01, &args),
-        "c06t" => dispatch(&c06t::C06T, &args),
+        "c06t" => dispatch(&c06t::C06T { c05: false }, &args),
+        "c05t" => dispatch(&c06t::C06T { c05: true }, &args),
         "c09t" => dispatch(&c09t::C09T, &args),
         "c13" => dispatch(&c13::C13, &args),
         other => simcore::harness_error(&format!("unknown command {other:?}")),
